@@ -173,6 +173,11 @@ func (p *Parser) Read() (*base.T, error) {
 		return nil, errors.New("read error")
 	}
 
+	// the first token of a line is separated from the token before the line break
+	if p.isFreshToken && p.LastT.IsNewLineIdentifier() {
+		p.Lexer.IsSpace = true
+	}
+
 	t.IsBeforeSpace = p.Lexer.IsSpace
 	p.Lexer.IsSpacePrev = p.Lexer.IsSpace
 
